@@ -707,6 +707,42 @@ def _messages(ctx: Ctx, cer: gw.Ceremony) -> None:
     ctx.check(P10, "message-verifies", good is True, f"{fn}: the signature does not verify for its own address {addr}")
     ctx.check(P10, "message-binds", alien is False, f"{fn}: a signature for {addr} verifies for another key's address {other}", site="address")
     ctx.check(P10, "message-binds", reworded is False, f"{fn}: a signature verifies for another message", site="message")
+    if fn == "wpkh({})":
+        _proof_of_funds(ctx, msg, addr, bip32.derive(holder.xprv, path), bip32.derive(cos[(holder.index + 1) % len(cos)].xprv, cos[(holder.index + 1) % len(cos)].leaf_path(acct + (1 if len(cos) == 1 else 0), 0, index)))
+
+
+def _proof_of_funds(ctx: Ctx, msg: bytes, addr: str, owner_xprv: str, forger_xprv: str) -> None:
+    """BIP322's proof-of-funds variant (the signature is a finalized psbt) against a dishonest prover:
+    the forger builds the to_sign of the OWNER's challenge, names its own p2wpkh output as what input 0
+    spends, and signs with its own key. Every field of that psbt is the forger's to write; the verifier
+    rebuilds to_spend from the message and the address, so the proof must be refused."""
+    from btclib.b32 import p2wpkh  # noqa: PLC0415
+    from btclib.ecc import dsa  # noqa: PLC0415
+    from btclib.script import ScriptPubKey  # noqa: PLC0415
+    from btclib.script.witness import Witness  # noqa: PLC0415
+    from btclib.to_prv_key import prv_keyinfo_from_prv_key  # noqa: PLC0415
+    from btclib.to_pub_key import pub_keyinfo_from_key  # noqa: PLC0415
+
+    def prove(signer_xprv: str) -> str:
+        signer_out = TxOut(0, ScriptPubKey.from_address(p2wpkh(signer_xprv)))
+        psbt = bip322.to_sign_psbt(msg, addr)
+        psbt.inputs[0].non_witness_utxo = None
+        psbt.inputs[0].witness_utxo = signer_out
+        q = prv_keyinfo_from_prv_key(signer_xprv)[0]
+        pub_key = pub_keyinfo_from_key(signer_xprv, compressed=True)[0]
+        digest = sig_hash.from_tx([signer_out], psbt.tx, 0, sig_hash.ALL)
+        psbt.inputs[0].final_script_witness = Witness([dsa.sign_(digest, q).serialize() + b"\x01", pub_key])
+        return bip322.Sig(Psbt.parse(psbt.serialize())).b64encode()
+
+    with ctx.must_succeed(P10, "message-verifies", "bip322-proof-of-funds"):
+        honest = prove(owner_xprv)
+        good = bip322.verify(msg, addr, honest)
+    ctx.check(P10, "message-verifies", good is True, f"an honest proof of funds does not verify for {addr}", site="bip322-proof-of-funds")
+    with ctx.must_succeed(P10, "message-binds", "forged-proof-of-funds"):
+        forged = prove(forger_xprv)
+        accepted = bip322.verify(msg, addr, forged)
+    ctx.fault("forged-proof-of-funds")
+    ctx.check(P10, "message-binds", accepted is False, f"a proof of funds signed only by another key verifies for {addr}", site="forged-proof-of-funds")
 
 
 # ---------------------------------------------------------------------------
